@@ -55,7 +55,14 @@ def run_spec(draw):
     if kind == "flat":
         ks = draw(st.lists(st.sampled_from(tickers), min_size=1, max_size=nt, unique=True))
         w = draw(lev_weights(ks))
-        spec["tree"] = {"name": "root", "kind": "Strategy", "algos": [spy, gate, ["WeighSpecified", {"weights": w}], ["Rebalance", {}]]}
+        node = {"name": "root", "kind": "Strategy", "algos": [spy, gate, ["WeighSpecified", {"weights": w}], ["Rebalance", {}]]}
+        if draw(st.integers(0, 2)) == 0:
+            # a market-value book of coupon-paying securities: the carry of the previous date arrives in cash at the opening of each date
+            node["children"] = [{"sec": t, "kind": "CouponPayingSecurity"} for t in tickers]
+            spec["frames"]["coupons"] = {"kind": "frame", "cols": {t: [draw(st.sampled_from([0.0, 0.5, 2.0, 5.0, -1.0])) * gen.min_price({t: pr[t]}) / 50.0 for _ in range(n)] for t in tickers}}
+            spec["additional"] = ["coupons"]
+            spec["carry"] = True
+        spec["tree"] = node
     elif kind == "nested":
         subs = []
         names = []
@@ -96,10 +103,17 @@ def case_run(ctx, spec):
 
     interp.Probe.registry["c16spy"] = cb
     try:
-        b = interp.mk_backtest(bt, {k: v for k, v in spec.items() if k != "kind"})
+        b = interp.mk_backtest(bt, {k: v for k, v in spec.items() if k not in ("kind", "carry")})
         holder["root"] = b.strategy
         try:
             b.run()
+        except ZeroDivisionError as e:
+            # value exactly zero on one date (a total wipe-out is not 'below zero') and a loss on the next: bt refuses the return on a
+            # zero base (C10) before the bankruptcy logic can act - the same measure-zero borderline that is discarded below
+            vals = np.asarray(b.strategy._values, dtype=float)
+            if (np.abs(vals[1:]) < 1e-6 * abs(spec["initial_capital"])).any():
+                raise Discard("borderline zero")
+            raise Violation("leveraged backtest raised %s: %s" % (type(e).__name__, str(e)[:200]), signature="c16:raises:" + bt_frame_signature(e))
         except Exception as e:
             raise Violation("leveraged backtest raised %s: %s" % (type(e).__name__, str(e)[:200]), signature="c16:raises:" + bt_frame_signature(e))
     finally:
@@ -123,8 +137,12 @@ def case_run(ctx, spec):
             p_ = pos[sec.full_name][t - 1]
             if p_ != 0:
                 m_ += p_ * prc[sec.full_name][t] * sec.multiplier
+        # carry accrued on the previous date is swept into cash at the opening of this one
+        for sec in secs:
+            if isinstance(sec, bt.core.CouponPayingSecurity):
+                m_ += float(np.asarray(sec.coupons, dtype=float)[t - 1]) - float(np.asarray(sec.holding_costs, dtype=float)[t - 1])
         M[t] = m_
-    labs = [spec["kind"]] + (["nested"] if spec["kind"] == "nested" else [])
+    labs = [spec["kind"]] + (["nested"] if spec["kind"] == "nested" else []) + (["carry"] if spec.get("carry") else [])
     for m in strats:
         if m is not s and m.bankrupt:
             raise Violation("sub-strategy %s was flagged bankrupt" % m.full_name, signature="c16:sub-flagged")
